@@ -13,7 +13,35 @@ RAISE_CLASS = {"thr": "@exc", "cust": "E1", "idx": "@exc", "div": "@exc", "undef
 CLASSES = [cls("E1", [("@content", s("custom1"))]), cls("E2", [("@content", s("custom2"))])]
 
 
-def wrap_site(stmt, sw):
+def raise_expr(rk):
+    """the raise as an EXPRESSION (for the positions below); 抛出 is a statement, so it is wrapped in a method RF"""
+    if rk == "idx": return idx(lst(num(1)), num(5))
+    if rk == "div": return bin_("div", num(1), bin_("sub", num(2), num(2)))
+    if rk == "undef": return var("NOPE")
+    return call("RF")
+def raise_funcs(rk):
+    if rk == "thr": return [func("RF", [], [mark("RF-in"), throw("@exc", s("boom")), mark("RF-dead")])]
+    if rk == "cust": return [func("RF", [], [mark("RF-in"), throw("E1", s("x")), mark("RF-dead")])]
+    return []
+EXPR_SITES = ["iter-target", "while-cond", "if-cond", "elif-cond", "call-arg", "decl-rhs", "list-item", "ret-value"]
+
+
+def wrap_site(stmt, sw, rk=None):
+    if sw in EXPR_SITES:
+        e = raise_expr(rk)
+        if "pre" in stmt: pre = stmt["pre"]
+        else: pre = None
+        def tagpre(s_):
+            if pre: s_["pre"] = pre
+            return s_
+        if sw == "iter-target": return [tagpre(iter_(["V"], e, [mark("dead-it")])), mark("dead-after-it")]
+        if sw == "while-cond": return [tagpre(while_(bin_("eq", e, num(1)), [mark("dead-w")])), mark("dead-after-w")]
+        if sw == "if-cond": return [tagpre(if_([bin_("eq", e, num(1))], [[mark("dead-if")]], [mark("dead-else")])), mark("dead-after-if")]
+        if sw == "elif-cond": return [tagpre(if_([b(False), bin_("eq", e, num(1))], [[mark("dead-if")], [mark("dead-elif")]], [mark("dead-else")])), mark("dead-after-if")]
+        if sw == "call-arg": return [tagpre(disp(s("arg"), e)), mark("dead-after-call")]
+        if sw == "decl-rhs": return [tagpre(decl("Q9", bin_("add", num(1), e))), mark("dead-after-decl")]
+        if sw == "list-item": return [tagpre(decl("Q9", lst(num(1), e, num(3)))), mark("dead-after-decl")]
+        if sw == "ret-value": return [tagpre(ret(e)), mark("dead-after-ret")]
     if sw == "plain": return [stmt]
     if sw == "inif": return [if_([b(True)], [[mark("in-if"), stmt, mark("dead-if")]]), mark("dead-after-if")]
     if sw == "inwhile": return [decl("W", num(0)), while_(bin_("lt", var("W"), num(3)), [ex(asg(var("W"), bin_("add", var("W"), num(1)))), mark("in-while"), stmt, mark("dead-w")]), mark("dead-after-w")]
@@ -49,7 +77,7 @@ def chain_prog(depth, rk, sw, hks, he, followups=True, pre=None):
     for lvl in range(1, depth + 1):
         body = [decl("L%d" % lvl, bin_("add", var("X"), num(lvl))), mark("F%d-in" % lvl)]
         if lvl == depth:
-            body += wrap_site(raise_stmt, sw)
+            body += wrap_site(raise_stmt, sw, rk)
             body += [mark("F%d-dead" % lvl), ret(num(lvl))]
         else:
             body += [decl("R%d" % lvl, call("F%d" % (lvl + 1), var("L%d" % lvl))), disp(s("F%d-out" % lvl), var("R%d" % lvl)),
@@ -57,11 +85,13 @@ def chain_prog(depth, rk, sw, hks, he, followups=True, pre=None):
         funcs.append(func("F%d" % lvl, ["X"], body, handler(lvl, hks[lvl], rk, he)))
     main = [decl("M", num(5)), mark("start")]
     if depth == 0:
-        main += wrap_site(raise_stmt, sw) + [mark("main-dead")]
+        main += wrap_site(raise_stmt, sw, rk) + [mark("main-dead")]
     else:
         main += [decl("R", call("F1", var("M"))), disp(s("R"), var("R")), disp(var("M"))]
         if followups:
             main += [decl("S", call("F1", bin_("add", var("M"), num(1)))), disp(s("S"), var("S")), mark("probe"), ex(var("L1"))]
+    if sw in EXPR_SITES:
+        funcs = funcs + raise_funcs(rk)
     p = prog(main, funcs=funcs, classes=CLASSES, catches=handler(0, hks[0], rk, he))
     p["tag"] = "d%d/%s/%s/%s/%s" % (depth, rk, sw, ",".join(hks), he)
     return p
